@@ -30,6 +30,9 @@ RULE = (
     "mutation (arbitrary); distinct by SHA-1 of the case; per-type acceptance counts are required"
     ' Also: embedded names at/below a decoding origin must be held relative (the grammar records the names it emits); an optional look-up of the type under another class first, each case starting from an empty class cache.'
 )
+RULE += (
+    " Rounds 9-10 added: records with relative names encoded under an exact-fit and a one-too-long origin through every encoder; EDNS text options 22-25 with trailing NULs."
+)
 ASSUMPTIONS = [
     "vlib/gen/rdata.py is an independent description of each wire format; a grammar-valid wire the "
     "library rejects is counted (rej:<type>) and starves the run if frequent, it is not a violation",
